@@ -8,7 +8,8 @@ Model for C16 (locations).
   `skip_nl`: index+1, line+1, col 0; the CR of a CRLF pair is consumed with `skip_blank`, the LF with
   `skip_nl`; byte offset = UTF-8 prefix length), the mark of the end-of-stream token
   (`fetch_stream_end` forces a new line), and the conversions `location::location_from_span`,
-  `Error::from_scan_error` with their `as u32` casts and the explicit range check of the byte info.
+  `Error::from_scan_error` with their `as u32` casts and the explicit range check of the byte info, and
+  `mark_line_and_column` (the end-of-stream mark put back on the last line when the input is in memory).
 * Part B — the span-carrying wrapper `Spanned<T>` (`de/spanned_deser.rs::deserialize_yaml_spanned`)
   on top of the cursor of `Model/De.lean`, as a wrapper type language `STy` around `De.deser`
   (the containers that may hold span-carrying children are mirrored here: `Vec`, map with untyped
@@ -116,6 +117,62 @@ def fromScanError (m : Mark) : Res Location :=
   if m.col + 1 > USIZE_MAX then .panic "mark.col() + 1"
   else .ok { line := asU32 m.line, column := asU32 (m.col + 1), span := { offset := asU32 m.index, len := 1, byteInfo := (0, 0) } }
 
+/-- `str::get(..byte)`: the prefix of the text that is `byte` bytes long (`none`: beyond the end or not
+a character boundary) -/
+def prefixOfByte : List Char → Nat → Option (List Char)
+  | _, 0 => some []
+  | [], _ + 1 => none
+  | c :: rest, b + 1 =>
+    if utf8LenChar c ≤ b + 1 then (prefixOfByte rest (b + 1 - utf8LenChar c)).map (c :: ·) else none
+
+/-- `before.ends_with(['\n', '\r'])` -/
+def endsWithBreak (pre : List Char) : Bool :=
+  match pre.getLast? with
+  | some c => isBreak c
+  | none => false
+
+/-- `before[line_start..].chars().count()` with `line_start` = one past the last `\n` / `\r` (or 0) -/
+def charsAfterLastBreak (pre : List Char) : Nat := (pre.reverse.takeWhile (fun c => !isBreak c)).length
+
+/-- `location::mark_line_and_column`: line and 1-based column of a mark.  A mark at column 0 whose preceding
+character (known when the input is in memory and the mark has a byte offset) is not a line break is the
+scanner's end-of-stream mark on its forced new line: it is put back just after the last character. -/
+def markLineCol (m : Mark) (input : Option (List Char)) : Nat × Nat :=
+  if m.col == 0 && m.line > 1 then
+    match input, m.byte with
+    | some text, some byte =>
+      if byte > 0 then
+        match prefixOfByte text byte with
+        | some before =>
+          if !endsWithBreak before then (m.line - 1, charsAfterLastBreak before + 1) else (m.line, m.col + 1)
+        | none => (m.line, m.col + 1)
+      else (m.line, m.col + 1)
+    | _, _ => (m.line, m.col + 1)
+  else (m.line, m.col + 1)
+
+/-- `location::location_from_span_in`: what `LiveEvents` applies to every span (`input` = the in-memory
+text, `none` for reader input) -/
+def locationFromSpanIn (input : Option (List Char)) (s e : Mark) : Res Location :=
+  let byteInfo : Nat × Nat :=
+    match s.byte, e.byte with
+    | some sb, some eb =>
+      let len := eb - sb
+      if sb > U32_MAX || len > U32_MAX then (0, 0) else (sb, len)
+    | _, _ => (0, 0)
+  if s.col + 1 > USIZE_MAX then .panic "start.col() + 1"
+  else if e.index < s.index then .panic "Span::len: end.index() - start.index()"
+  else
+    let lc := markLineCol s input
+    .ok { line := asU32 lc.1, column := asU32 lc.2,
+          span := { offset := asU32 s.index, len := asU32 (e.index - s.index), byteInfo := byteInfo } }
+
+/-- `Error::from_scan_error_in` -/
+def fromScanErrorIn (input : Option (List Char)) (m : Mark) : Res Location :=
+  if m.col + 1 > USIZE_MAX then .panic "mark.col() + 1"
+  else
+    let lc := markLineCol m input
+    .ok { line := asU32 lc.1, column := asU32 lc.2, span := { offset := asU32 m.index, len := 1, byteInfo := (0, 0) } }
+
 /-- Opaque code of a `Location` for the event models (`Loc := Nat`, `0` = `Location::UNKNOWN`).  The low
 20 bits hold the (clamped) column because `Pump.locCol0` reads them; the full fields follow. -/
 def Location.code (l : Location) : Loc :=
@@ -141,21 +198,21 @@ inductive MItem where
 deriving Repr, Inhabited
 
 /-- what `LiveEvents::next_impl` makes of a parser item before looking at the event:
-`location_from_span(&span)` / `Error::from_scan_error` -/
-def itemOf : MItem → Res RawItem
+`location_from_span_in(&span, input)` / `Error::from_scan_error_in(err, input)` -/
+def itemOf (input : Option (List Char)) : MItem → Res RawItem
   | .ev e s e' =>
-    match locationFromSpan s e' with
+    match locationFromSpanIn input s e' with
     | .ok l => .ok (.ev e l.code)
     | .panic s => .panic s
   | .err ua m =>
-    match fromScanError m with
+    match fromScanErrorIn input m with
     | .ok l => .ok (.err ua l.code)
     | .panic s => .panic s
 
-def itemsOf : List MItem → Res (List RawItem)
+def itemsOf (input : Option (List Char)) : List MItem → Res (List RawItem)
   | [] => .ok []
   | i :: rest =>
-    match itemOf i, itemsOf rest with
+    match itemOf input i, itemsOf input rest with
     | .ok x, .ok xs => .ok (x :: xs)
     | .panic s, _ => .panic s
     | _, .panic s => .panic s
